@@ -97,7 +97,7 @@ func init() {
 		c.boolean("packet_anyLittle", u, anyLE)
 		c.shapeOf("rr_rdataFits_shape", rr.cond("> len(data)", 1))
 		c10WriteOrderReadable(c, p, p.fn("NBTNSPacket.Marshal"))
-		c.putOrder("packet_encode", p.fn("NBTNSPacket.Marshal"))
+		c10PutOrder(c, "packet_encode", p.fn("NBTNSPacket.Marshal"))
 	})
 }
 
@@ -178,4 +178,57 @@ func c10WriteOrderReadable(c *cx, p *cpkg, n cnode) {
 				p.dir, n.where, funcDisplayName(g))
 		}
 	}
+}
+
+// c10PutOrder is putOrder with one normalisation, "position of an append" (DESIGN.md §7).  Canonical form of a
+// write at a fixed position: `PutUintN(buf[lo:hi], v)` -> "<N><order>:<v>@buf[lo:hi]".  The same bytes are written by
+// `buf = AppendUintN(buf, v)` when the length of buf at that statement is known: buf was created by
+// `buf := make([]byte, 0[, cap])` and every statement since is such an append, at the top level of the function (no
+// loop, no branch, no other mention of buf in between).  Then the append lands at [lo:lo+N/8] with lo the sum of the
+// widths so far, and is rendered with that destination.  From the first other statement on, appends have no known
+// position and are rendered without one, as before.
+func c10PutOrder(c *cx, name string, n cnode) {
+	isPut := func(s string) bool {
+		return strings.HasPrefix(s, "binary.") && (strings.Contains(s, ".PutUint") || strings.Contains(s, ".AppendUint"))
+	}
+	static := map[ast.Node]string{}
+	fd := n.n.(*ast.FuncDecl)
+	buf, off := "", 0
+	for _, st := range fd.Body.List {
+		as, ok := st.(*ast.AssignStmt)
+		if ok && len(as.Lhs) == 1 && len(as.Rhs) == 1 {
+			lhs := render(as.Lhs[0])
+			if call, ok := as.Rhs[0].(*ast.CallExpr); ok {
+				if buf == "" && render(call.Fun) == "make" && len(call.Args) >= 2 && render(call.Args[0]) == "[]byte" && render(call.Args[1]) == "0" {
+					buf, off = lhs, 0
+					continue
+				}
+				if buf != "" && lhs == buf && isPut(render(call.Fun)) && strings.Contains(render(call.Fun), ".AppendUint") && len(call.Args) == 2 && render(call.Args[0]) == buf {
+					w := (cnode{n.p, call, n.where}).width()
+					static[call] = fmt.Sprintf("@%s[%d:%d]", buf, off, off+w/8)
+					off += w / 8
+					continue
+				}
+			}
+		}
+		if buf != "" {
+			break // anything else: the length of buf is no longer known here
+		}
+	}
+	var out []string
+	for _, k := range n.callsWith(isPut) {
+		e := "b"
+		if k.little() {
+			e = "l"
+		}
+		dst := static[k.n]
+		if _, ok := k.arg(0).n.(*ast.SliceExpr); ok {
+			dst = "@" + k.arg(0).text() // written in place at a fixed position
+		}
+		out = append(out, fmt.Sprintf("%d%s:%s%s", k.width(), e, k.arg(1).text(), dst))
+	}
+	if len(out) == 0 {
+		c.failf("package %s: %s: no binary.*.PutUintN calls", n.p.dir, n.where)
+	}
+	c.texts(name, n, out)
 }
